@@ -163,10 +163,10 @@ P['C06']={
  "note":"decided as a functional provenance contract: every session id / state / nonce is shown to be a fixed function (alphabet character selected by byte i modulo 62) of the bytes of ONE crypto/rand.Read made in that call, and of nothing else (not the time, not request data, not other identifiers); the only generator server.Check hands to the handler is the randomGenerator. The statistical quality of the draw (modulo bias 256 mod 62) is not decided"}
 T="internal.tlsConfigPool."
 P['C20']={
- "functions":[T+"LoadTLSConfig",T+"updateCA","internal.BoolStrValue","internal.encodeConfig","internal.tlsConfigEncoder.hash","internal.tlsConfigEncoder.JSON","http.NewHTTPClient","internal.caFileReader.ID","internal.FileReader.ID"],
+ "functions":[T+"LoadTLSConfig",T+"updateCA","internal.BoolStrValue","internal.encodeConfig","internal.tlsConfigEncoder.hash","internal.tlsConfigEncoder.JSON","http.NewHTTPClient","internal.caFileReader.ID","internal.FileReader.ID","internal.FileWatcher.WatchFile"],
  "refines":[T+"LoadTLSConfig"],
  "lemmas":["L-hashbuf-injective"],
- "required":[T+"LoadTLSConfig:post:own_watcher","internal.caFileReader.ID:post:key",T+"LoadTLSConfig:post:trust",T+"LoadTLSConfig:post:shared",T+"LoadTLSConfig:post:pool",T+"LoadTLSConfig:post:none",T+"updateCA:post:updated",T+"updateCA:post:only_id","internal.tlsConfigEncoder.hash:post:id","internal.encodeConfig:post:enc","internal.BoolStrValue:post:val","lemma.L-hashbuf-injective:lemma:L-hashbuf-injective", T+"LoadTLSConfig:refine:TLSConfigPool.LoadTLSConfig.trust", T+"LoadTLSConfig:refine:repinv.src", "http.NewHTTPClient:post:tls_trust", "http.NewHTTPClient:post:tls_none"],
+ "required":[T+"LoadTLSConfig:post:own_watcher","internal.FileWatcher.WatchFile:post:others","internal.caFileReader.ID:post:key",T+"LoadTLSConfig:post:trust",T+"LoadTLSConfig:post:shared",T+"LoadTLSConfig:post:pool",T+"LoadTLSConfig:post:none",T+"updateCA:post:updated",T+"updateCA:post:only_id","internal.tlsConfigEncoder.hash:post:id","internal.encodeConfig:post:enc","internal.BoolStrValue:post:val","lemma.L-hashbuf-injective:lemma:L-hashbuf-injective", T+"LoadTLSConfig:refine:TLSConfigPool.LoadTLSConfig.trust", T+"LoadTLSConfig:refine:repinv.src", "http.NewHTTPClient:post:tls_trust", "http.NewHTTPClient:post:tls_none"],
  "note":"trust function of the TLS configuration pool: which roots / skip-verify a *tls.Config built or pooled for given settings expresses; pooling keyed by the hash of the settings; CA replacement by updateCA. File watching (goroutines, tickers, elapsed time) and TLS handshakes are not decided"}
 P['C16']={
  "locks":True,
